@@ -31,9 +31,15 @@ SIG_NO_ENDTXN = ("transaction_manager.py:error_transaction clears _txn_partition
                  "transaction stays open and the next commit publishes the aborted records")
 SIG_UNREGISTERED = ("transaction_manager.py:error_transaction clears _pending_txn_partitions: the muted batch is "
                     "produced to a partition that was never added to the transaction")
+SIG_FINDCOORD = ("sender.py:_find_coordinator: a connection lost during FindCoordinator (KafkaConnectionError) is "
+                 "re-raised as KafkaError, escapes the transactional task and kills the sender: FATAL_ERROR after a "
+                 "retriable fault")
 SIG_BATCH_LOST = ("sender.py:SendProduceReqHandler.handle_response: a batch that failed non-retriably does not "
                   "fail the transaction; commit_transaction() succeeds without its records")
 
+
+OB_NAMES = {1: "add_before_produce", 2: "end_after_acks (a batch of the transaction failed)",
+            3: "no_write_outside_txn", 4: "end_reaches_coordinator"}
 
 # =========================================================================== scenario generation
 def mk_txn(rng, partitions, end=None, heavy=False):
@@ -60,8 +66,8 @@ def number_offsets(sc):
     for inst in sc["instances"]:
         for t in inst["txns"]:
             if t.get("offsets"):
-                k = 1 + (n % 2)
-                t["offsets"]["items"] = [[q % sc["partitions"], n + q] for q in range(k)]
+                k = min(1 + (n % 2), sc["partitions"])
+                t["offsets"]["items"] = [[q, n + q] for q in range(k)]
                 n += 3
 
 
@@ -423,15 +429,20 @@ def monitor(ck, sc, r, stats):
     only_retriable = all(is_retriable_fault(k.split(":")[0], f) for k, f in faults.items())
     if only_retriable and not sc.get("kills") and len(sc["instances"]) == 1:
         stats["liveness_runs"] = stats.get("liveness_runs", 0) + 1
+        # a FindCoordinator request that was answered by closing the connection
+        fc_drop = any(e["ev"] == "request" and e.get("api") == "FindCoordinator" and e.get("fault")
+                      and e["fault"]["kind"] in ("drop_before", "drop_after") for e in r["trace"])
+        lsig = (lambda d: SIG_FINDCOORD if fc_drop else d)
         if r.get("unfinished"):
-            viol("only retriable faults, but the application did not finish", "liveness-not-finished")
+            viol("only retriable faults, but the application did not finish", lsig("liveness-not-finished"))
         want = sum(len(i["txns"]) for i in sc["instances"])
         if len(r["txns"]) != want:
-            viol(f"only retriable faults, but {len(r['txns'])} of {want} transactions were started", "liveness-count")
+            viol(f"only retriable faults {faults}, but {len(r['txns'])} of {want} transactions were started "
+                 f"(instance: {r['instances']})", lsig("liveness-count"))
         for t in r["txns"]:
             if t["outcome"] != {"commit": "committed", "abort": "aborted"}[t["want"]]:
                 viol(f"only retriable faults {faults}, but transaction #{t['k']} ended '{t['outcome']}' "
-                     f"({t.get('exc')}) instead of '{t['want']}'", "liveness-wrong-end")
+                     f"({t.get('exc')}) instead of '{t['want']}'", lsig("liveness-wrong-end"))
     stats["violations"] = stats.get("violations", 0) + nviol
     return nviol
 
@@ -620,6 +631,8 @@ def run(ck: Check):
         bodies.append("Open Scope nat_scope.\n" + "\n".join(lines) + "\n")
     outs = ck.coq_eval_sharded("c07_traces", ["Imp", "TxnTable", "C16_TxnApi", "C07_Txn"], bodies, timeout=1500)
     rejected = mismatched = coq_fail = 0
+    ob_stats = {}
+    ob_seen = {}
     for ci, (okc, out) in enumerate(outs):
         chunk = cases[ci * per:(ci + 1) * per]
         vals = [parse_coq_value(v) for v in parse_eval_outputs(out)] if okc else []
@@ -638,8 +651,28 @@ def run(ck: Check):
                                   f"{evs[max(0, idx - 12):idx]}; faults={sc.get('faults')} kills={sc.get('kills')} "
                                   f"moves={sc.get('moves')}")
                 continue
-            glog, coord, views, ended, cstates = v[1]
+            glog, coord, views, ended, cstates, obinfo = v[1]
             diffs = []
+            ob_idx, ob_k, fresh_ok = obinfo
+            if not fresh_ok:
+                diffs.append("item ids of the workload are not fresh")
+            if ob_k:
+                # the faithful model accepts the trace, but a client obligation (the hypotheses of
+                # c07_atomic) is broken at event ob_idx: a finding about the real client
+                ob_stats[ob_k] = ob_stats.get(ob_k, 0) + 1
+                had_error = any(x.startswith("AError") for x in evs[:ob_idx + 1])
+                had_fail = any(x.startswith("SFail") for x in evs[:ob_idx + 1])
+                sig = {1: SIG_UNREGISTERED if had_error else None,
+                       3: SIG_NO_ENDTXN if had_error else None,
+                       4: SIG_NO_ENDTXN if had_error else None,
+                       2: SIG_BATCH_LOST if had_fail else None}.get(ob_k) or f"model-obligation-{ob_k}"
+                key = ("ob", sig)
+                ob_seen[key] = ob_seen.get(key, 0) + 1
+                if ob_seen[key] <= 2:
+                    ck.violation(f"client obligation {OB_NAMES.get(ob_k, ob_k)} broken at event #{ob_idx} "
+                                 f"`{evs[ob_idx]}` of the accepted trace (scenario {sc['id']})",
+                                 {"scenario": sc, "obligation": OB_NAMES.get(ob_k, ob_k), "event_index": ob_idx,
+                                  "event": evs[ob_idx], "trace": evs[:ob_idx + 1][-60:]}, signature=sig)
             # logs
             for p in range(sc["partitions"]):
                 mine = [(ep, kd, list(items)) for (pp, ep, kd, items) in glog if pp == p]
@@ -679,6 +712,7 @@ def run(ck: Check):
                   f"{rejected} rejected, {coq_fail} case files failed to evaluate")
     ck.obligation("correspondence:model-output-equals-simulator-ground-truth", mismatched == 0, f"{mismatched} differ")
     ck.cov["traces_validated_against_impl"] = len(cases) - rejected - mismatched
+    ck.extra["obligations_broken_on_real_traces"] = {OB_NAMES.get(k, k): v for k, v in ob_stats.items()}
     ck.log(f"model acceptance: {len(cases)} traces, rejected={rejected}, mismatched={mismatched}, "
            f"coq_fail={coq_fail} ({time.time() - t0:.0f}s)")
 
